@@ -17,10 +17,9 @@ Property: "every draw lies in the support (integer-valued for discrete laws)".
 * Ziggurat (`zig_strip_nonneg`, `zig_wedge_tail_nonneg`, `zig_out` — PARTIAL: per accepting branch, not as one statement about
   `Normal.sample`): every accepting branch returns `Normal.out μ σ s x = μ ± x σ` with a real `x ≥ 0` (strip / wedge:
   `x = j·W[i]`, all 128 widths `≥ 0`; tail: `x ≥ R > 0` and the argument of `ln_1p` is `> −1`, so the logarithm is finite).
-  Missing for the loop-level statement `Normal.sample fuel μ σ g = some (z, g') → ∃ s = ±1, x ≥ 0, z = s x σ + μ`: the unfolding
-  of `Normal.sample (fuel + 1)`.  Every way of obtaining it (equation lemmas, `unfold`, `rfl` against the body, `delta` +
-  `dsimp`) fails to terminate within minutes in Lean 4.33 — already `#check @Cv.Normal.sample.eq_2` in a file importing only
-  `Compute.Model.Samplers` — apparently because reducing the `match g.u64 with` unfolds the wyrand mixer on a symbolic state.
+  The loop-level unfolding is available since the model writes `Normal.sample` through `Normal.next` on the projections of
+  `g.u64` (`Props/C03Witness.lean`: `sample_succ`, `normal_fast`); a single loop-level support statement for `Normal.sample`
+  has not been assembled from the per-branch lemmas.
 * Compositions (`chi_squared_pos_partial`, `t_support_partial`, `beta_support_partial`): χ² draws are `> 0` for every `dof ≥ 1`; Student-t divides by
   `√G` with `G > 0` for every `ν > 0` (both after repair F54: the boosting uniform of a gamma draw below shape 1 is redrawn
   while it is `0`; before it χ²(1) returned exactly `0` and t returned `±∞` at those states); Beta draws lie in `[0, 1]` in
@@ -80,7 +79,7 @@ theorem f64_snd (g : Rng) : (g.f64 (α := ℝ)).2 = (g.f53).2 := rfl
 
 /-- Non-vacuity of `ptrs_support_partial` / `poisson_sample_support_partial`: at rate 16, from the generator state `1`, PTRS returns in its
 first iteration (fast acceptance) — and the value is a natural number. -/
-example : 4 ≤ (16 : ℝ) ∧ ∃ (n : ℕ) (g' : Rng), Poisson.sample 1 (16 : ℝ) ⟨1⟩ = some ((n : ℝ), g') := by
+theorem ptrs_returns_witness : 4 ≤ (16 : ℝ) ∧ ∃ (n : ℕ) (g' : Rng), Poisson.sample 1 (16 : ℝ) ⟨1⟩ = some ((n : ℝ), g') := by
   refine ⟨by norm_num, ?_⟩
   obtain ⟨⟨hV0, _⟩, ⟨_, hV1⟩, ⟨hB0, _⟩, ⟨hB1, _⟩, _, _, _, ⟨_, hU1⟩⟩ := ptrs_lits2
   have hret : ∃ k g', Poisson.sample 1 (16 : ℝ) ⟨1⟩ = some (k, g') := by
